@@ -352,15 +352,42 @@ func ruleMarkAfterReplay(r *Run) {
 		k := 0
 		for _, b := range f.Blocks {
 			for _, in := range b.Instrs {
-				mu, ok := in.(*ssa.MapUpdate)
-				if !ok {
+				var mu ssa.Instruction
+				var keyVals []ssa.Value
+				name := ""
+				if m, ok := in.(*ssa.MapUpdate); ok {
+					if fa := mapFieldAddr(m.Map); fa != nil {
+						name, _, _ = fieldName(fa)
+						mu, keyVals = m, []ssa.Value{m.Key}
+					}
+				}
+				// the mark may be made by a helper of the package (vc.markVersionMapped(ancestors[pos:])): a function
+				// without a replay of its own that stores into a map field
+				if c, ok := in.(*ssa.Call); ok && mu == nil {
+					if g := c.Call.StaticCallee(); g != nil && g != f && g.Pkg == f.Pkg && len(g.Blocks) > 0 && len(g.Blocks) <= 6 && g.Object() != nil && !g.Object().Exported() {
+						replaysToo := false
+						for _, gc := range calls(g) {
+							if callee := staticCallee(gc); callee != nil && callee.Name() == "StreamLog" {
+								replaysToo = true
+							}
+						}
+						if !replaysToo {
+							for _, gb := range g.Blocks {
+								for _, gin := range gb.Instrs {
+									if m, ok := gin.(*ssa.MapUpdate); ok {
+										if fa := mapFieldAddr(m.Map); fa != nil {
+											name, _, _ = fieldName(fa)
+											mu, keyVals = c, c.Call.Args
+										}
+									}
+								}
+							}
+						}
+					}
+				}
+				if mu == nil {
 					continue
 				}
-				fa := mapFieldAddr(mu.Map)
-				if fa == nil {
-					continue
-				}
-				name, _, _ := fieldName(fa)
 				k++
 				construct := fmt.Sprintf("%s:mark#%d:%s", fname(f), k, name)
 				if findPath(f, mu, nil, isReplay, allEdges) == nil {
@@ -388,12 +415,25 @@ func ruleMarkAfterReplay(r *Run) {
 				}
 				// the loop walks the ancestry from the oldest unloaded version toward the queried one
 				desc := false
-				for d := range dataDeps(mu.Key) {
-					ia, ok := d.(*ssa.IndexAddr)
-					if !ok {
+				deps := map[ssa.Value]bool{}
+				for _, kv := range keyVals {
+					deps[kv] = true
+					for d := range dataDeps(kv) {
+						deps[d] = true
+					}
+				}
+				for d := range deps {
+					var index ssa.Value
+					if ia, ok := d.(*ssa.IndexAddr); ok {
+						index = ia.Index
+					}
+					if sl, ok := d.(*ssa.Slice); ok && sl.Low != nil {
+						index = sl.Low // ancestors[pos:] handed to the marking helper
+					}
+					if index == nil {
 						continue
 					}
-					if phi, ok := stripConv(ia.Index).(*ssa.Phi); ok && phi.Block() == h {
+					if phi, ok := stripConv(index).(*ssa.Phi); ok && phi.Block() == h {
 						for _, e := range phi.Edges {
 							if bo, ok := e.(*ssa.BinOp); ok && bo.X == ssa.Value(phi) {
 								if c, ok := bo.Y.(*ssa.Const); ok && c.Value != nil {
